@@ -120,7 +120,7 @@ def simplify(kind, fs):
 
 
 def check_case(case):
-    td = tempfile.mkdtemp(prefix="c10_")
+    td = common.mkdtemp(prefix="c10_")
     res = {"nontrivial": True, "outcome": "ok", "transitions": len(case["seq"])}
     viol = []
     cwd = os.getcwd()
